@@ -2,6 +2,16 @@
 
 K = "kernel/"
 
+import re
+
+def scale_const(path, name, value):
+    """Overlay copy of a Go file with `const <name> = N` rewritten (fails loudly if the constant is gone)."""
+    src = open(path).read()
+    out, n = re.subn(r"(const\s+%s\s*=\s*)\d+" % re.escape(name), r"\g<1>%d" % value, src)
+    if n != 1:
+        raise SystemExit("HARNESS-ERROR: cannot bind to code: constant %s not found in %s" % (name, path))
+    return out
+
 def kernel(pkg, inject, test, level, tiers, **kw):
     d = dict(module="kernel", pkg="./" + pkg, inject=inject, test=test, level=level, tiers=tiers)
     d.update(kw)
@@ -30,6 +40,18 @@ CHECKS = {
                   {"quick": dict(shards=8, timeout=600), "thorough": dict(shards=16, timeout=3000, budget=1500)},
                   assumptions=["operations are issued only when their documented preconditions hold (child detached, sibling is a child of the parent, freed object has no children)",
                                "names are drawn from {AAAA, BBBB, unnamed}; CCCC is the absent name in lookups"]),
+    "C16": dict(module="kernel", level="model_checking",
+                tiers={"quick": dict(shards=8, timeout=600), "thorough": dict(shards=16, timeout=3000)},
+                parts=[
+                    dict(name="ring8", pkg="./kfmt", test="TestVerifC16Ring", inject={"harness/kfmt/c16_ring_test.go": K + "kfmt/zz_verif_c16_ring_test.go"},
+                         generate=[dict(dest=K + "kfmt/ringbuf.go", fn=lambda cur, repo: scale_const(cur(K + "kfmt/ringbuf.go"), "ringBufferSize", 8))], shards={"quick": 1, "thorough": 1}),
+                    dict(name="ring4", pkg="./kfmt", test="TestVerifC16Ring", inject={"harness/kfmt/c16_ring_test.go": K + "kfmt/zz_verif_c16_ring_test.go"},
+                         generate=[dict(dest=K + "kfmt/ringbuf.go", fn=lambda cur, repo: scale_const(cur(K + "kfmt/ringbuf.go"), "ringBufferSize", 4))], shards={"quick": 1, "thorough": 1}),
+                    dict(name="ring2048", pkg="./kfmt", test="TestVerifC16Ring", inject={"harness/kfmt/c16_ring_test.go": K + "kfmt/zz_verif_c16_ring_test.go"}, shards={"quick": 1, "thorough": 1}),
+                    dict(name="hal", pkg="./hal", test="TestVerifC16Hal", inject={"harness/hal/c16_hal_test.go": K + "hal/zz_verif_c16_hal_test.go", "harness/device/shim.go": K + "device/zz_verif_shim.go"}),
+                ],
+                assumptions=["ring-buffer search: the constant ringBufferSize is rewritten to 8 and 4 in an overlay copy of ringbuf.go generated from the current tree (all other code is the real code); the shipped size is explored to a bounded depth",
+                             "HAL: the registered driver list is replaced through an overlay-only shim in package device; drivers are mocks except the real tty.VT; bring-up messages are matched by driver name / error tokens, not by exact wording"]),
     "C17": kernel("device/tty", {"harness/tty/vt_test.go": K + "device/tty/zz_verif_vt_test.go"}, "TestVerifVT", "model_checking",
                   {"quick": dict(shards=16, timeout=600), "thorough": dict(shards=16, timeout=3000, budget=1500)},
                   assumptions=["the console behind the terminal is a reference cell-grid console (the shipped drivers are bound in C18/C19)",
